@@ -253,6 +253,27 @@ func veq(t *ref.Type, a, b *ref.Value, zerosEq bool) bool {
 		if len(a.Keys) == 0 && len(b.Keys) == 0 {
 			return true
 		}
+		if len(a.Keys) == len(b.Keys) && len(a.Keys) <= 8 && scalarish(t.Key) {
+			// small maps with distinct keys on both sides: quadratic match, no key strings
+			if distinctKeys(t.Key, a) && distinctKeys(t.Key, b) {
+				for i, k := range a.Keys {
+					found := false
+					for j, k2 := range b.Keys {
+						if veq(t.Key, k, k2, false) {
+							if !veq(t.Val, a.Vals[i], b.Vals[j], false) {
+								return false
+							}
+							found = true
+							break
+						}
+					}
+					if !found {
+						return false
+					}
+				}
+				return true
+			}
+		}
 		ia, ib := indexMap(t, a), indexMap(t, b)
 		if len(ia) != len(ib) {
 			return false
@@ -278,6 +299,21 @@ func veq(t *ref.Type, a, b *ref.Value, zerosEq bool) bool {
 		return true
 	}
 	return false
+}
+
+func scalarish(t *ref.Type) bool {
+	return t.Kind.IsInteger() || t.Kind == ref.KString || t.Kind == ref.KFloat || t.Kind == ref.KDouble
+}
+
+func distinctKeys(t *ref.Type, v *ref.Value) bool {
+	for i := range v.Keys {
+		for j := i + 1; j < len(v.Keys); j++ {
+			if veq(t, v.Keys[i], v.Keys[j], false) {
+				return false
+			}
+		}
+	}
+	return true
 }
 
 func indexMap(t *ref.Type, v *ref.Value) map[string]int {
